@@ -10,13 +10,69 @@ LEVEL_NOTE = ("theorems hold for every fault oracle: rmtree / remove_file2 / rem
 RULE = ("seeded trash worlds (1-5 volumes, home / .Trash/uid / .Trash-uid / --trash-dir) whose payloads include symlinks "
         "(absolute, relative, dangling) to sentinel files and directories outside, trees containing such links, and 14 "
         "kinds of malformed neighbours incl. odd info names; trash-rm with patterns and trash-empty with and without DAYS; "
+        "a trashed tree deeper than the interpreter stack allows (small allowance, 260 levels) with links to the outside at levels the recursive delete never reaches; "
         "oracle: every path outside files/ and info/ of the trash dirs is byte-for-byte unchanged")
+
+
+def deep_tree_task(task):
+    """a trashed tree deeper than the interpreter's stack allows (the allowance is made small instead of the tree huge),
+    with symbolic links to a directory outside the trash at levels the recursive delete never reaches: however the purge
+    gets on - it dies of a RecursionError on this tree - nothing outside the trash directory changes.  Judged on the real run
+    alone."""
+    from ..model import W, cmd_argv, snap_to_state
+    from ..runner import jsonable, task_rng
+    from ..sandbox import MODEL_ROOT as R, run_world
+    i = task["i"]
+    rng = task_rng("C11deep", task["seed"], i)
+    w = W()
+    home = w.dir(R + b"/home/u")
+    t = home + b"/.local/share/Trash"
+    w.dir(t, 0o700)
+    w.dir(t + b"/files", 0o700)
+    w.dir(t + b"/info", 0o700)
+    w.file(R + b"/precious/keep.txt", b"keep")
+    w.file(R + b"/precious/sub/inner.txt", b"inner")
+    w.file(R + b"/precious/sub/subsub/innermost.txt", b"innermost")
+    w.file(t + b"/info/deep.trashinfo", b"[Trash Info]\nPath=" + R + b"/w/deep\nDeletionDate=2020-01-01T00:00:00\n", 0o600)
+    depth = 260
+    p = t + b"/files/deep"
+    w.dir(p)
+    for lvl in range(depth):
+        if lvl in (1, 130, 200, depth - 1):
+            w.link(p + rng.choice([b"/a-link", b"/z-link"]), rng.choice([R + b"/precious", R + b"/precious/"]))
+            w.file(p + b"/f", b"a file on the way")
+        p += b"/d"
+        w.dir(p)
+    cmd = ["empty", "rm"][i % 2]
+    env, opts, args = {"HOME": home}, {}, []
+    if cmd == "empty":
+        env["TRASH_DATE"] = b"2024-03-02T12:00:00"
+        opts = {"now": [2024, 3, 2, 12, 0, 0]}
+    else:
+        args = [b"deep"]
+    world = w.world(env=env, uid=1000, cwd=R, cmd=cmd, opts=opts, args=args, stdin=None,
+                    meta={"entries": [], "tdirs": [(t, None)], "profile": "deep-tree", "payload_kinds": ["tree"], "sentinels": []})
+    world["argv"] = cmd_argv(world)
+    o = run_world(world, {"reclimit": [100, 140, 180][i % 3]})
+    before, after = snap_to_state(o["before"]), snap_to_state(o["after"])
+    changed = sorted(q for q in set(before) | set(after) if not q.startswith(t + b"/") and before.get(q) != after.get(q))
+    return {"key": (cmd, i), "exc": o.get("exc"), "purged": (t + b"/files/deep") not in after,
+            "bad": [{"verdict": "outside the trash directory: " + ", ".join(repr(q) for q in changed[:6]), "exc": o.get("exc"),
+                     "stderr": repr(o["stderr"][-300:]), "world": jsonable(world)}] if changed else []}
 
 
 def run(tier, seed):
     ck = Check("C11", tier, seed)
     info = audit("C11")
     add_worlds(ck, "C11", seed, CFG, 250 if tier == "quick" else 4000)
+    from ..runner import run_tasks
+    for r in run_tasks(deep_tree_task, [{"seed": seed, "i": i} for i in range(6 if tier == "quick" else 24)]):
+        if "machinery" in r:
+            from ..lean import MachineryError
+            raise MachineryError(r["machinery"])
+        ck.case(("deep-tree", r["key"]), tags=["deep-tree:" + ("purged" if r["purged"] else "died:" + str(r["exc"]))])
+        for b in r["bad"]:
+            ck.violation("deep-tree-purge-stays-inside", {"oracle": "C11-deep-tree"}, b)
     return ck.finish(info, LEVEL_NOTE, RULE)
 
 
